@@ -182,8 +182,15 @@ def run(ctx):
         for i in range(2 * L + 2):
             inc = 'include "c%d.idl"\n' % (i + 1) if i < 2 * L + 1 else ""
             open(os.path.join(chain, "c%d.idl" % i), "w").write(inc + "struct SC%d { uint8 x; };\n" % i)
-        t0 = time.time(); r1 = scrape.idlc_run(ctx["idlc"], os.path.join(chain, "c0.idl"), os.path.join(chain, "o.h"), timeout=120); tc = time.time() - t0
-        t0 = time.time(); r2 = scrape.idlc_run(ctx["idlc"], os.path.join(lad, "a0.idl"), os.path.join(lad, "o.h"), timeout=60); tl = time.time() - t0
+        # (the smaller of up to three timings each: a loaded machine must not look like a slow walk)
+        tc = tl = None
+        for _ in range(3):
+            t0 = time.time(); r1 = scrape.idlc_run(ctx["idlc"], os.path.join(chain, "c0.idl"), os.path.join(chain, "o.h"), timeout=120); d = time.time() - t0
+            tc = d if tc is None else min(tc, d)
+            t0 = time.time(); r2 = scrape.idlc_run(ctx["idlc"], os.path.join(lad, "a0.idl"), os.path.join(lad, "o.h"), timeout=60); d = time.time() - t0
+            tl = d if tl is None else min(tl, d)
+            if r2[0] in (-9, 124) or tl < 0.3:
+                break
         res["coverage_ladder"] = {"levels": L, "files": 2 * L + 2, "chain_seconds": round(tc, 3), "ladder_seconds": round(tl, 3), "rc": [r1[0], r2[0]]}
         how = ("ladder: files a<i>.idl and b<i>.idl for i = 0..%d, each `include \"a<i+1>.idl\"` and `include \"b<i+1>.idl\"` (none at the last level) "
                "plus one struct; main file a0.idl; chain: c0.idl .. c%d.idl, each including the next" % (L, 2 * L + 1))
